@@ -18,6 +18,7 @@ MUTABLE_TOP = [
     ["list", ["union", True, [["uint", 2], ["bitvec", 9]]], 6],
     ["cont", [["union", False, [["cont", [["uint", 1]]], ["uint", 8]]], ["list", ["bitlist", 300], 4]]],
     ["list", ["list", ["cont", [["uint", 1]]], 3], 3],
+    ["vec", ["uint", 8], 9],          # 2^k + 1 chunks, the last one partly used
 ]
 COMPOSITE = ("vec", "list", "cont", "union", "bitvec", "bitlist")
 
@@ -67,7 +68,9 @@ class Shadow:
     """the implementation under test, driven command by command"""
 
     def __init__(self, t, v):
-        self.views = [to_py(t, v)]
+        # the all-default content starts from the DEFAULT-CONSTRUCTED value (cls(): default_node / zero subtrees),
+        # every other content from the constructor given the elements
+        self.views = [T(t)() if v == zero_value(t) else to_py(t, v)]
         self.types = [t]
         self.parent = [None]
 
@@ -284,10 +287,13 @@ def gen_arg(rng, e, valid=True):
     if k in ("bitlist", "bytelist"):
         n = e[1] + 1
         return ["val", "1" * n if k == "bitlist" else "ab" * n] if n < 2000 else ["none"]
+    # wrong-length / over-limit sequences: as plain data, or as a VIEW of another sequence type (larger limit, list for
+    # vector) that holds them legitimately — coercion must still check the target's length / limit
+    how = "viewalt" if rng.random() < 0.5 else "val"
     if k == "vec":
-        return ["val", [gen_value(rng, e[1], cap=3) for _ in range(e[2] + rng.choice([-1, 1]))]] if e[2] < 40 else ["none"]
+        return [how, [gen_value(rng, e[1], cap=3) for _ in range(e[2] + rng.choice([-1, 1]))]] if e[2] < 40 else ["none"]
     if k == "list":
-        return ["val", [gen_value(rng, e[1], cap=3) for _ in range(e[2] + 1)]] if e[2] < 40 else ["none"]
+        return [how, [gen_value(rng, e[1], cap=3) for _ in range(e[2] + 1)]] if e[2] < 40 else ["none"]
     if k == "union":
         return ["val", [union_count(e) + rng.randrange(0, 2), None]]
     return ["none"]
@@ -295,7 +301,7 @@ def gen_arg(rng, e, valid=True):
 
 def gen_history(rng, t, n_cmds, p_invalid=0.0, p_child=0.0, p_copy=0.0, top_only=False, p_iter=0.0):
     """returns input dict; commands are chosen by looking at the live implementation objects"""
-    v = gen_value(rng, t, cap=6)
+    v = gen_value(rng, t, cap=6) if rng.random() < 0.88 else zero_value(t)
     if t[0] in ("list", "bitlist") and rng.random() < 0.5:
         # start near a chunk / subtree boundary
         per = 256 if t[0] == "bitlist" else (32 // bsize(t[1]) if is_basic(t[1]) else 1)
@@ -386,6 +392,14 @@ def gen_history(rng, t, n_cmds, p_invalid=0.0, p_child=0.0, p_copy=0.0, top_only
                 else:
                     a = gen_arg(rng, o, valid=not invalid) if not (invalid and rng.random() < 0.3) else ["none"]
                 c = ["change", vi, sel, a]
+        if c is not None and c[0] == "set" and isinstance(c[3], list) and c[3][0] == "other" and rng.random() < 0.5:
+            # a wrong-width integer that is numerically EQUAL to what the slot holds already (still to be refused)
+            try:
+                cur = int(x[c[2]]) if k != "cont" else int(getattr(x, "f%d" % c[2]))
+                if cur < (1 << (8 * c[3][1])):
+                    c[3][2] = cur
+            except Exception:
+                pass
         if c is None:
             continue
         cmds.append(c)
